@@ -237,7 +237,11 @@ def main(argv=None):
             "coverage": coverage, "assumptions": list(getattr(mod, "ASSUMPTIONS", [])),
             "wall_s": round(wall, 2), "violations": len(vio_lines),
         }
-        epath = os.path.join(VERIF, "evidence", f"{prop}.json")
+        # evidence describes /repo; a run pointed at another tree (self-test on a scratch copy) keeps its file out of the way
+        other_tree = os.path.realpath(os.environ.get("VERIF_REPO", "/repo")) != os.path.realpath("/repo")
+        edir = os.path.join(VERIF, ".scratch", "evidence-of-other-trees") if other_tree else os.path.join(VERIF, "evidence")
+        os.makedirs(edir, exist_ok=True)
+        epath = os.path.join(edir, f"{prop}.json")
         with open(epath, "w") as f:
             json.dump(evidence, f, indent=1)
         try:
